@@ -2,6 +2,8 @@
 recompiled from the working tree) + model-free oracles.  DESIGN.md section 4, C10."""
 from __future__ import annotations
 
+import json
+import os
 import random
 import subprocess
 
@@ -195,6 +197,38 @@ def huge_piece_probe(ctx, rep):
     if bad:
         rep.violations.append({'what': f'one piece of {len(data)} bytes: chunk of length {bad[0]} outside [min, max] or unaligned far from the tail',
                                'signature': {'kind': 'bounds', 'probe': 'huge'}, 'replay': {'probe': 'huge'}})
+
+
+def huge_bounds_probe(ctx, rep):
+    """chunk lengths at and above 2**32 (valid: any maximum the platform can address is accepted): the native scan is asked once per
+    case, in a child process, on an anonymous mapping of zero pages.  Far from the end of a stream a cut lies within [min, max] and on
+    the alignment; with less than the look-ahead buffered and more to come the answer is 'need more data' (0)."""
+    import subprocess
+    import sys
+    G = 1 << 32
+    cases = [(G + 4, G + 8, G + 8, 0, 'cut'), (1000, G + 8, 6000, 0, 'wait'), (128000, 2 * G, 600000, 0, 'wait'), (G - 4, G, G, 0, 'cut')]
+    for mn, mx, n, final, want in cases:
+        env = dict(os.environ)
+        try:
+            p = subprocess.run([sys.executable, '-m', 'harness.hugebounds_child', str(mn), str(mx), str(n), str(final)], env=env, cwd=str(core.ROOT),
+                               stdout=subprocess.PIPE, stderr=subprocess.PIPE, timeout=600)
+            rc, out = p.returncode, p.stdout.decode(errors='replace').strip()
+        except subprocess.TimeoutExpired:
+            rc, out = -100, ''
+        rep.case(('huge-bounds', mn, mx, n), nontrivial=True)
+        rep.count('huge_bounds_cases')
+        what = None
+        if rc != 0:
+            what = (f'the native scan with min {mn}, max {mx} on {n} buffered bytes (more to come) ends the process with status {rc}' if rc != -100 else
+                    f'the native scan with min {mn}, max {mx} on {n} buffered bytes does not return within 600 s')
+        else:
+            cut = json.loads(out.splitlines()[-1])['cut']
+            if want == 'wait' and cut != 0:
+                what = f'min {mn}, max {mx}: {n} bytes buffered and more to come (less than the look-ahead): the scan cuts at {cut} instead of asking for more data'
+            if want == 'cut' and not (mn <= cut <= mx and cut % 4 == 0):
+                what = f'min {mn}, max {mx}: {n} bytes buffered, far from the end of the stream: cut at {cut}, outside [min, max] or off the alignment'
+        if what:
+            rep.violations.append({'what': what, 'signature': {'kind': 'bounds', 'probe': 'huge_bounds'}, 'replay': {'probe': 'huge_bounds'}})
 
 
 def head_part(chunks, total, mx):
@@ -443,6 +477,8 @@ def run(ctx) -> Report:
     cases = corpus_cases() + [gen_case(ctx.rng, maxlen) for _ in range(n)]
     check_cases(cases, rep)
     huge_piece_probe(ctx, rep)
+    if ctx.tier == 'thorough':
+        huge_bounds_probe(ctx, rep)
     rep.notes.append(stale_binary_note())
     return rep
 
@@ -456,6 +492,7 @@ def search(ctx, broken) -> Report:
     cases += [gen_case(rng, 900) for _ in range(6000)]
     check_cases(cases, rep, with_model=False)
     huge_piece_probe(ctx, rep)
+    huge_bounds_probe(ctx, rep)
     return rep
 
 
